@@ -26,7 +26,7 @@ from ..world import VSelector, World
 PROPERTY = "C04"
 LEVEL = "model_checking"
 RULE = (
-    "chunk sequences: ALL sequences of 0..4 chunks with sizes from {0,1,2,5} (thorough {0,1,2,3,7}, plus all sequences of 5 chunks over {0,1,2}) - empty chunks in "
+    "chunk sequences: ALL sequences of 0..4 chunks with sizes from {0,1,2,5} (thorough: plus all sequences of <= 3 chunks over {0,1,2,3,7} and of 5 chunks over {0,1,2}) - empty chunks in "
     "every position; per send()/sendmsg() call ALL answers (accept all, every partial size, EAGAIN, EINTR, one ECONNRESET) with "
     "no bound on the number of deviations (explicit-state: states = (offered buffers, bytes on the wire, clock, fault budget)); "
     "timeouts {inf, 3.0, 0} x retry_interval {inf, 1.0} x environment {writable after 0.4 / 1.7 / never}; paths: send_all, "
@@ -43,7 +43,7 @@ ASSUMPTIONS = [
     "a send() of zero bytes returns 0 (POSIX); an infinite timeout with a peer that never reads again is not enumerated (blocking forever is then legitimate)",
     "async TLS send paths are checked under C08 (transparent stream) with the TLS rig; the blocking TLS socket is driven here (props/c04_tls.py) over a real socketpair with the kernel-minimum send buffer",
 ]
-BOUNDS = {"quick": "<= 4 chunks of sizes {0,1,2,5}; TLS socket: deviation bound 3 (40000 bytes) / 2 (100000)", "thorough": "<= 4 chunks of sizes {0,1,2,3,7} + 5 chunks of sizes {0,1,2}; TLS socket: deviation bound 3 (40000 bytes) / 2 (100000, 300000)"}
+BOUNDS = {"quick": "<= 4 chunks of sizes {0,1,2,5}; TLS socket: deviation bound 3 (40000 bytes) / 2 (100000)", "thorough": "<= 4 chunks of sizes {0,1,2,5} + <= 3 chunks of sizes {0,1,2,3,7} + 5 chunks of sizes {0,1,2}; TLS socket: deviation bound 3 (40000 bytes) / 2 (100000, 300000)"}
 
 CALL_HORIZON = 300
 
@@ -219,12 +219,16 @@ SYNC_PATHS = ("send_all", "iter_sendmsg", "iter_noiov", "iter_nosendmsg", "endpo
 
 
 def chunk_seqs(tier: str) -> list[tuple[int, ...]]:
-    sizes = (0, 1, 2, 5) if tier == "quick" else (0, 1, 2, 3, 7)
     out: list[tuple[int, ...]] = []
     for n in range(0, 5):
-        out.extend(itertools.product(sizes, repeat=n))
+        out.extend(itertools.product((0, 1, 2, 5), repeat=n))
     if tier != "quick":
-        out.extend(itertools.product((0, 1, 2), repeat=5))  # five chunks: small sizes only (the state space grows with the byte total)
+        # thorough: the quick set + every sequence of <= 3 chunks over {0,1,2,3,7} + five chunks over {0,1,2} (the state space grows
+        # with the byte total: the first complete thorough sweep took 46 minutes with <= 4 chunks over {0,1,2,3,7})
+        seen = set(out)
+        for n in range(0, 4):
+            out.extend(s for s in itertools.product((0, 1, 2, 3, 7), repeat=n) if s not in seen)
+        out.extend(itertools.product((0, 1, 2), repeat=5))
     return out
 
 
